@@ -442,12 +442,32 @@ func init() {
 							if len(code) != len(b.vals[j]) || !codeLike(code) || code == b.vals[j] {
 								continue
 							}
+							vals := setAt(setAt(b.vals, i, h), j, code)
+							inMessage := false
 							for _, sn := range snames {
 								m := samples[sn].Clone()
-								m.Tags[tt.Name] = tt.New(b.marker, setAt(setAt(b.vals, i, h), j, code))
+								m.Tags[tt.Name] = tt.New(b.marker, vals)
 								if m.Validate() == "ok" {
 									msgs = append(msgs, m)
+									inMessage = true
 									break
+								}
+							}
+							// no sample message takes this tag: the tag on its own - what its Validate accepts, its own Format
+							// and Parse give back (the four FED-appended tags have no validation: recorded finding, left out)
+							if fed := map[string]bool{"MessageDisposition": true, "ReceiptTimeStamp": true, "OutputMessageAccountabilityData": true, "ErrorWire": true}; !inMessage && !fed[tt.Name] {
+								p := tt.New(b.marker, vals)
+								if tt.Validate(p) == "ok" {
+									for _, variable := range []bool{false, true} {
+										f := tt.Format(p, variable)
+										v := "same"
+										if !strings.HasPrefix(f, "ok:") {
+											v = "differ:tag-level: a valid tag is not formatted: " + f
+										} else if res, _ := tt.Parse(string(unhexs(f[3:]))); res != "ok:"+encVals(b.marker, vals) {
+											v = fmt.Sprintf("differ:tag-level: %s validates with %q next to code %s, but its own text is read back as %s", tt.Name, h, code, short(res))
+										}
+										o.Case("prop:valid-reads-back", v, "tag-level", tt.Name, h, code, fmt.Sprint(variable))
+									}
 								}
 							}
 						}
